@@ -179,6 +179,22 @@ def c14_r4(ctx: Ctx, rule):
                     cj = cj.operand
                 if isinstance(cj, ast.Compare) and isinstance(cj.ops[0], (ast.In, ast.NotIn)) and not isinstance(cj.comparators[0], ast.Constant) and "edge_data" not in norm(cj):
                     bad.append((t, cj))
+        # relations ride on edges: re-adding them must not depend on whether an end node is an inferred placeholder
+        arg = resolve_local(gf.node, c.args[0]) if c.args else None
+        from_edge = arg is not None and ("relation" in norm(arg) or "edge" in norm(arg).lower())
+        if from_edge:
+            sentinel = [t for t in tests if any(isinstance(x, ast.Attribute) and x.attr in ("bundle", "_bundle") for x in ast.walk(t.stmt.test))]
+            # an early `continue` on the sentinel inside an enclosing node loop counts as well
+            for l in walk_function(gf.node):
+                if isinstance(l, ast.For) and any(x is c for x in ast.walk(l)):
+                    for st0 in l.body:
+                        if isinstance(st0, ast.If) and any(isinstance(x, ast.Attribute) and x.attr in ("bundle", "_bundle") for x in ast.walk(st0.test)) and any(isinstance(b, ast.Continue) for b in st0.body) and not any(x is c for x in ast.walk(st0)):
+                            sentinel.append(gg.nodes_of(st0)[0])
+            res.ob("graph_to_prov: relations are re-added independently of the placeholder-node filter: %s" % (not sentinel))
+            for t in sentinel:
+                res.fail(rule.id, "relation-behind-node-filter::%s" % norm(t.stmt.test)[:50], ctx.loc(gq, t.stmt),
+                         "a relation is only re-added when `%s` lets its node through: edges leaving an inferred (undeclared) node are skipped" % norm(t.stmt.test)[:60],
+                         "wasGeneratedBy(ex:e, ex:a) with no entity(ex:e): the edge is in the graph but graph_to_prov loses the relation")
         res.ob("graph_to_prov: %s guarded by %s" % (norm(c), [norm(t.stmt.test)[:70] for t in tests]))
         for t, cj in bad:
             res.fail(rule.id, "graph-dedupe::%s" % norm(cj)[:50], ctx.loc(gq, t.stmt), "graph_to_prov skips a record under the membership test `%s`: records hash and compare by value" % norm(cj)[:60],
